@@ -345,12 +345,15 @@ of the mutual block logs a cleanup event with tag `t`, whatever the program does
 `disposeChildren` takes the cleanups out of the node before it runs them, which makes their tags
 `Gone`; `runCleanups` logs each exactly once.
 
-What is NOT claimed (and false for the model as for the real code): "every cleanup of the SUBTREE
-runs exactly once" for arbitrary cleanups.  A cleanup that registers another cleanup ON THE NODE
-BEING DISPOSED (through `run_in`) after that node's list has been taken out gets it dropped by
-`removeNode` without being run; and a cleanup may dispose a descendant before its turn (its cleanups
-then run at that point — still once).  For inert cleanups `disposeNode_spec` (Props/C04) gives the
-exact event list of the whole subtree. -/
+What is NOT claimed here: "every cleanup of the SUBTREE runs exactly once" for arbitrary cleanups.
+The statement is about the cleanups registered on `id` WHEN THE CALL STARTS: they run in the first round
+(`disposeChildren` takes the list out of the node first).  A cleanup that registers another cleanup ON
+THE NODE BEING DISPOSED (through `run_in`) after that node's list has been taken out used to get it
+dropped by `removeNode` without being run; since repair D23 the loop `disposeRest` runs it in a later
+round, with a fresh tag (`Props/C04Orphans`), which does not change the count of the tags registered
+before (`Gone`).  A cleanup may also dispose a descendant before its turn (its cleanups then run at that
+point — still once).  For inert cleanups `disposeNode_spec` (Props/C04) gives the exact event list of the
+whole subtree. -/
 theorem C04_dispose_runs_registered_cleanups_once {fuel : Nat} {r r' : Root} {id : Id} {n : Node}
     (hT : TagInv r) (hn : r.get? id = some n) (hx : disposeNode fuel r id = .ok r') :
     ∀ cl ∈ n.cleanups,
